@@ -65,11 +65,11 @@ class PersisterHandle:
         self.persister, self.pid, self.directory, self.tag = persister, pid, directory, tag
 
     def fetch(self):
-        try:
-            return self.persister.load_checkpoint(self.pid, self.tag)
-        finally:
-            if self.directory is not None:
-                shutil.rmtree(self.directory, ignore_errors=True)
+        return self.persister.load_checkpoint(self.pid, self.tag)
+
+    def discard(self):
+        if self.directory is not None:
+            shutil.rmtree(self.directory, ignore_errors=True)
 
 
 PERSISTER_MEDIA = ('persister:memory', 'persister:pickle')
@@ -115,7 +115,8 @@ class RestartRun:
     """
 
     def __init__(self, program, crashes=None, media=None, loader_mode='default', build=None, max_rounds=200, pauses=None,
-                 crash_paused=None, pause_in_step=None, crash_on_paused=None, crash_on_played=None, lag=None, tags=None):
+                 crash_paused=None, pause_in_step=None, crash_on_paused=None, crash_on_played=None, lag=None, tags=None,
+                 crash_on_exit=None, lose_at=None):
         self.plumpy = seams.install()
         self.program = program
         self.crashes = {int(k): v for k, v in (crashes or {}).items()}
@@ -155,10 +156,25 @@ class RestartRun:
         # tags under which checkpoints go into a persister (cycled); while an instance runs on after a TAGGED checkpoint it
         # keeps writing the untagged "latest" checkpoint at every boundary, as an application with named snapshots does
         self.tags = list(tags or [None])
+        # ordinals of EXITING_STATE events (leaving RUNNING or WAITING) at which the checkpoint is written: after the step
+        # returned, before its command has taken effect
+        self.crash_on_exit = set(int(b) for b in (crash_on_exit or []))
+        # boundaries at which an instance that was restored from a persister checkpoint is lost WITHOUT a new checkpoint: the
+        # same stored checkpoint is loaded once more (what it holds must not have followed the first restored instance)
+        self.lose_at = [int(b) for b in (lose_at or [])]
+        self.handles = []
+        self.last_handle = None
+        self.exit_ordinal = 0
         self.played_ordinal = 0
         self.step_ordinal = 0
         self.paused_ordinal = 0
         self.world.site_hook = self._in_user_code
+
+    def _save(self, proc, tag=None):
+        bundle = save(proc, self._medium(), self._loader(), tag)
+        if isinstance(bundle, PersisterHandle):
+            self.handles.append(bundle)
+        return bundle
 
     def _medium(self):
         medium = self.media[self.restores % len(self.media)]
@@ -174,6 +190,16 @@ class RestartRun:
         if state not in ('running', 'waiting'):
             return
         self.boundary += 1
+        if self.last_handle is not None and self.lagging is None and self.boundary in self.lose_at:
+            # lost without a checkpoint of its own: back to the checkpoint it came from
+            self.lose_at.remove(self.boundary)
+            handle = self.last_handle
+            del self.world.events[handle.mark['events']:]
+            del self.world.program_errors[handle.mark['errors']:]
+            self.boundary = handle.mark['boundary']
+            self.pending_bundle = handle
+            self.world.rec('crash', self.boundary, 'lost-again', self._medium())
+            raise SimCrash()
         if self.lagging is not None:
             handle = self.lagging['bundle']
             if isinstance(handle, PersisterHandle) and handle.tag is not None:
@@ -198,7 +224,7 @@ class RestartRun:
             return
         self.crashes[self.boundary] = remaining - 1
         try:
-            self.pending_bundle = save(proc, self._medium(), self._loader(), self.tags[self.restores % len(self.tags)])
+            self.pending_bundle = self._save(proc, self.tags[self.restores % len(self.tags)])
         except SimError:
             raise
         except Exception as exc:  # noqa: BLE001 - "cannot be saved" point: skip the crash, count it
@@ -206,6 +232,9 @@ class RestartRun:
             self.world.rec('unsavable', self.boundary, type(exc).__name__)
             return
         self.crash_states.append(proc.state.value)
+        if isinstance(self.pending_bundle, PersisterHandle):
+            self.pending_bundle.mark = {'events': len(self.world.events), 'boundary': self.boundary,
+                                        'errors': len(self.world.program_errors)}
         if self.lagging is not None and self.boundary not in self.lag:
             self.lagging = None  # a newer checkpoint supersedes the one the instance was running away from
         lag = self.lag.pop(self.boundary, 0)
@@ -253,7 +282,7 @@ class RestartRun:
                 return
             ordinal = self.paused_ordinal
         try:
-            self.pending_bundle = save(proc, self._medium(), self._loader())
+            self.pending_bundle = self._save(proc)
         except SimError:
             raise
         except Exception as exc:  # noqa: BLE001
@@ -264,9 +293,30 @@ class RestartRun:
         self.world.rec('crash', f'{event}#{ordinal}', f'{event}-notification:' + proc.state.value, self._medium())
         raise SimCrash()
 
+    def _on_exiting(self, proc, hook, next_state):
+        state = proc.state.value
+        if state not in ('running', 'waiting'):
+            return
+        self.exit_ordinal += 1
+        if self.exit_ordinal not in self.crash_on_exit:
+            return
+        try:
+            self.pending_bundle = self._save(proc)
+        except SimError:
+            raise
+        except Exception as exc:  # noqa: BLE001
+            self.unsavable += 1
+            self.world.rec('unsavable', f'exit#{self.exit_ordinal}', type(exc).__name__)
+            return
+        self.crash_states.append('exit:' + state)
+        self.world.rec('crash', f'exit#{self.exit_ordinal}', 'exit:' + state, self._medium())
+        raise SimCrash()
+
     def _attach(self, proc):
         self.incarnations += 1
         proc._sim_label = 'p'
+        if self.crash_on_exit:
+            proc.add_state_event_callback(self.plumpy.base.state_machine.StateEventHook.EXITING_STATE, self._on_exiting)
         if self.crash_on_paused or self.crash_on_played:
             from . import listeners
 
@@ -300,6 +350,7 @@ class RestartRun:
                 self.sim_time += loop.time()
                 self.ticks += loop.tick
                 bundle, self.pending_bundle = self.pending_bundle, None
+                self.last_handle = bundle if isinstance(bundle, PersisterHandle) and hasattr(bundle, 'mark') else None
                 loop.hooks = None
                 loop = seams.new_loop(max_ticks=20000)
                 try:
@@ -346,7 +397,7 @@ class RestartRun:
                             # from the bundle: the restored process is paused and has to be played
                             self.crash_paused.discard(self.boundary)
                             try:
-                                self.pending_bundle = save(proc, self._medium(), self._loader())
+                                self.pending_bundle = self._save(proc)
                                 self.crash_states.append('paused:' + proc.state.value)
                                 self.world.rec('crash', self.boundary, 'paused:' + proc.state.value, self._medium())
                                 break
@@ -387,6 +438,8 @@ class RestartRun:
         return True
 
     def close(self):
+        for handle in self.handles:
+            handle.discard()
         if self.crash_on_paused or self.crash_on_played:
             from . import listeners
 
